@@ -47,7 +47,7 @@ def dispatch (ws : List String) : String :=
     else if e == "qpack" then H3.Drv.C11.handle ws
     else if e == "lim" then H3.Drv.C10.handle ws
     else if e == "dyn" then H3.Drv.C20.handle ws
-    else if e == "wbuf" || e == "out" || e == "outlog" then H3.Drv.C14.handle ws
+    else if e == "wbuf" || e == "sdc" || e == "out" || e == "outlog" then H3.Drv.C14.handle ws
     else "bad-op"
 
 partial def loop (h : IO.FS.Stream) (out : IO.FS.Stream) : IO Unit := do
